@@ -176,6 +176,13 @@ static void DivOp(TempResult* pErg, TempResult* pLVal, TempResult* pRVal) {
     case TempInt:
         if (pRVal->Contents.Int == 0) {
             WrError(ErrNum_DivByZero);
+        }
+
+        /* the most negative number divided by -1 traps on many hosts:
+           negate in two's complement instead */
+
+        else if (pRVal->Contents.Int == -1) {
+            as_tempres_set_int(pErg, (LargeInt)(0 - (LargeWord)pLVal->Contents.Int));
         } else {
             as_tempres_set_int(pErg, pLVal->Contents.Int / pRVal->Contents.Int);
         }
@@ -195,6 +202,8 @@ static void DivOp(TempResult* pErg, TempResult* pLVal, TempResult* pRVal) {
 static void ModOp(TempResult* pErg, TempResult* pLVal, TempResult* pRVal) {
     if (pRVal->Contents.Int == 0) {
         WrError(ErrNum_DivByZero);
+    } else if (pRVal->Contents.Int == -1) {
+        as_tempres_set_int(pErg, 0); /* see DivOp() */
     } else {
         as_tempres_set_int(pErg, pLVal->Contents.Int % pRVal->Contents.Int);
     }
